@@ -227,9 +227,14 @@ class Expander:
         self.recursion_count = 0
         self.aliasmap = parser.AliasMap(self.siteinfo)
 
-        self.parsed = parser.parse(
-            txt, included=False, replace_tags=self.replace_tags, siteinfo=self.siteinfo
-        )
+        try:
+            self.parsed = parser.parse(
+                txt, included=False, replace_tags=self.replace_tags, siteinfo=self.siteinfo
+            )
+        except RecursionError:
+            # braces nested deeper than the (recursive) template parser can follow:
+            # leave the page text unexpanded, as is done for such a template page
+            self.parsed = [self.replace_tags(txt)]
         # show(self.parsed)
         self.parsedTemplateCache = {}
 
